@@ -334,6 +334,9 @@ func (p *Program) parseContractFile(path, short string) error {
 		case "contract", "iface":
 			name := strings.TrimSpace(rest)
 			key := short + "." + name
+			if kw == "iface" && strings.Count(name, ".") == 2 {
+				key = name // interface of another package, e.g. io.Writer.Write
+			}
 			cur = &Contract{Key: key, Loops: map[int]*LoopSpec{}, File: path, Line: rc.line, Iface: kw == "iface"}
 			if _, dup := p.Contracts[key]; dup {
 				return fmt.Errorf("%s:%d: duplicate contract for %s", path, rc.line, key)
